@@ -103,7 +103,12 @@ def run(ctx):
         ctx.log("%s: %d generated / %d distinct; %d behaviours emitted" % (cfg, mc.generated, mc.distinct, len(mc.emitted)))
         behs += mc.emitted
     # (M)+(R) scripted scenarios, seeded random walks (data choices and crash points)
-    for name, w, odds in SCRIPTS:
+    scripts = SCRIPTS
+    if q and not ctx._parts:
+        # quick tier: k1 and two of the four long scenarios, rotating with the seed (all of them in the thorough tier)
+        long = SCRIPTS[:4]
+        scripts = [long[ctx.seed % 4], long[(ctx.seed + 1) % 4], SCRIPTS[4]]
+    for name, w, odds in scripts:
         if not ctx.want(name):
             continue
         sim = ctx.tlc("crash", "Crash", "SIM.cfg", simulate=(4 if q else 12), depth=4000, workers=4 if q else 8, files=files,
@@ -118,7 +123,7 @@ def run(ctx):
         # budget of the quick tier: a few complete workloads (dry run + real-trace crash points) and the model's crash points
         rnd.shuffle(full)
         rnd.shuffle(part)
-        full, part = full[:6], part[:40]
+        full, part = full[:4], part[:30]
     else:
         rnd.shuffle(full)
         rnd.shuffle(part)
